@@ -181,6 +181,10 @@ func TestGotransFixtures(t *testing.T) {
 			add("RangeSum", czs(xs)+" "+cz(int64(x)), func() string { return cz(int64(gtfix.RangeSum(xs, x))) })
 			add("IndexWalk", czs(xs)+" "+cz(int64(x)), func() string { return cz(int64(gtfix.IndexWalk(xs, x))) })
 			add("IndexWalkRet", czs(xs)+" "+cz(int64(x)), func() string { return cz(int64(gtfix.IndexWalkRet(xs, x))) })
+			add("RevWalkA", czs(xs)+" "+cz(int64(x)), func() string { return cz(int64(gtfix.RevWalkA(xs, x))) })
+			add("RevWalkB", czs(xs)+" "+cz(int64(x)), func() string { return cz(int64(gtfix.RevWalkB(xs, x))) })
+			add("RevWalkC", czs(xs)+" "+cz(int64(x)), func() string { return cz(int64(gtfix.RevWalkC(xs, x))) })
+			add("RevWalkIdx", czs(xs)+" "+cz(int64(x)), func() string { return cz(int64(gtfix.RevWalkIdx(xs, x))) })
 		}
 		add("Script", "(@nil (list (bstr * Z))) "+cz(int64(x))+" "+cs("k"), func() string {
 			st := gtfix.NewStack(x)
@@ -198,6 +202,11 @@ func TestGotransFixtures(t *testing.T) {
 			add("Script2", "(@nil ((list (bstr * Z)) * bool)) "+cs(k)+" "+cb(mark), func() string {
 				var f gtfix.Frames
 				a, b := gtfix.Script2(&f, k, mark)
+				return "((@nil ((list (bstr * Z)) * bool)), " + cz(int64(a)) + ", " + cz(int64(b)) + ")"
+			})
+			add("Script3", "(@nil ((list (bstr * Z)) * bool)) "+cs(k)+" "+cb(mark), func() string {
+				var f gtfix.Frames
+				a, b := gtfix.Script3(&f, k, mark)
 				return "((@nil ((list (bstr * Z)) * bool)), " + cz(int64(a)) + ", " + cz(int64(b)) + ")"
 			})
 		}
